@@ -26,6 +26,13 @@ pub mod tokio {
             /// the LocalSet the task was spawned on
             pub uninterp spec fn on(&self) -> int;
         }
+        /// the LocalSet that is being driven on the calling thread (tokio panics when there is none: documented)
+        pub uninterp spec fn current_local_set() -> int;
+        /// tokio::task::spawn_local: the task joins the LocalSet being driven on the CALLING thread
+        #[verifier::external_body]
+        pub fn spawn_local<F: Future + 'static>(f: F) -> (r: JoinHandle<F::Output>)
+            ensures r.on() == current_local_set(),
+        { unimplemented!() }
         /// tokio::task::LocalSet: tasks spawned on it run on the thread that drives it
         #[verifier::external_body]
         pub struct LocalSet { _p: () }
@@ -54,6 +61,11 @@ pub struct Runtime { pub local: LocalSet, pub rt: tokio::runtime::Runtime }
 // `default_tokio_runtime` / `Runtime::new` (a current-thread Tokio runtime with the I/O and time drivers) are NOT put under
 // contract: no listed property depends on the flavour or the drivers of the runtime — commands run on the arbiter's
 // thread because they are spawned on its LocalSet (below), whatever runtime drives it.
+
+//@extract file=actix-rt/src/lib.rs item="fn spawn" ret=r props=C10 name=rt::spawn
+//@spec
+    ensures r.on() == tokio::task::current_local_set(),   // [C10] `actix_rt::spawn`: the task stays on the calling thread's LocalSet — on an arbiter thread, the arbiter's
+//@end
 
 impl Runtime {
 //@extract file=actix-rt/src/runtime.rs item="impl Runtime / fn spawn" ret=r props=C10 name=runtime::spawn
